@@ -6,3 +6,9 @@ mod stubs;
 mod c32;
 #[cfg(kani)]
 mod c30;
+#[cfg(kani)]
+mod xstubs;
+#[cfg(kani)]
+mod build;
+#[cfg(kani)]
+mod c05;
